@@ -819,6 +819,19 @@ impl SA {
                         });
                     }
                 }
+                Step::JoinAsk { t1, b1, t2, b2 } => {
+                    if let (Some(h1), Some(h2)) = (sh.peer(*t1), sh.peer(*t2)) {
+                        sh.model_add(*t1, 1, "tmp+");
+                        sh.model_add(*t2, 1, "tmp+");
+                        let _tmp1 = TmpRef { sh: &sh, actor: *t1 };
+                        let _tmp2 = TmpRef { sh: &sh, actor: *t2 };
+                        let f1 = send_via(&sh, ctx, *t1, &h1, SendKind::Ask, MTy::U, b1.clone());
+                        let f2 = send_via(&sh, ctx, *t2, &h2, SendKind::Ask, MTy::S, b2.clone());
+                        let _ = tokio::join!(f1, f2);
+                        drop(h1);
+                        drop(h2);
+                    }
+                }
                 Step::HoldRef(t) => {
                     if let Some(h) = sh.peer(*t) {
                         self.held.push((*t, h));
